@@ -46,7 +46,7 @@ TMergeSummary ==
     /\ l <= Len(Rec)
     /\ Rec[l].ev = "Merge"
     /\ Chk("C05", "merge_verdict_is_panic_iff_intersection", l,
-           (\A i \in 1..Len(Rec[l].lists) : IsSorted(Rec[l].lists[i])) => Rec[l].verdict = Verdict(Rec[l].lists))
+           (\A i \in 1..Len(Rec[l].lists) : IsSortedStrict(Rec[l].lists[i])) => Rec[l].verdict = Verdict(Rec[l].lists))
     /\ l' = l + 1
     /\ TLCSet(1, l + 1)
     /\ UNCHANGED <<L, st, idx, outcome, pc>>
